@@ -90,7 +90,9 @@ EffectClause(op, again, p, o) ==
          IF \E r \in Procs(o.PC) : (r.mod \o "#" \o r.name) \in onames /\ op.k \in Range(r.rcalls) THEN "rm-call-left" ELSE "ok"
     [] op.op = "dup" ->
          LET ms == IF op.msfx = "" THEN op.sfx ELSE op.msfx
-             heads == {e \in EdgesOf(p) : \E a \in pn, b \in pn : a.name = e[1] /\ ~a.ignored /\ b.name = e[2] /\ b.local = op.k}
+             \* (a processed routine that really CALLs k; an interface block alone is a dependency but not a call)
+             heads == {e \in EdgesOf(p) : \E a \in pn, b \in pn : /\ a.name = e[1] /\ ~a.ignored /\ b.name = e[2] /\ b.local = op.k
+                                                                  /\ op.k \in Range(procOf(e[1]).rcalls)}
              clone(b) == (IF b.scope = "" THEN "" ELSE b.scope \o ms) \o "#" \o b.local \o op.sfx
              nodeOf(nm) == CHOOSE b \in pn : b.name = nm
          IN IF \E e \in heads : clone(nodeOf(e[2])) \notin onames THEN "dup-clone-missing"
